@@ -44,6 +44,7 @@ class SimCheck:
         self.samples = []
         self.distinct = set()
         self.exhaustive = True
+        self.not_mine = ()
         self.known = [k for k in lib.load_known() if k.get("status") == "known" and k.get("property") == pid]
 
     def mc(self, name, module, cfg, workers=8, timeout=1500, heap="8g", extra_module=None):
@@ -114,6 +115,8 @@ class SimCheck:
         for dv in divs[:40]:
             self.verdict.divergences.append(dict(kind="divergence", tag=tag, case=dv["case"], errs=dv["errs"][:300]))
         for v in viols:
+            if self.skip_violation(v):
+                continue
             kind = v["errs"].split('"')[1] if '"' in v["errs"] else "violation"
             matched = None
             for kf in self.known:
@@ -134,6 +137,10 @@ class SimCheck:
 
     def known_applies(self, kf, rec):
         return True
+
+    def skip_violation(self, v):
+        """Violations that belong to another property's check."""
+        return any(s in v["errs"] for s in self.not_mine)
 
     def finish(self, rule, assumptions, extra=None):
         cov = dict(states=max(self.states, 1), transitions=max(self.transitions, 1),
